@@ -8,6 +8,9 @@ import (
 	"os"
 	"os/exec"
 	"runtime"
+	"strconv"
+	"strings"
+	"syscall"
 	"time"
 )
 
@@ -110,7 +113,7 @@ func (c *Client) start() error {
 	} else {
 		cmd = exec.Command(self)
 	}
-	cmd.Env = append(append(os.Environ(), workerEnv+"=1", "GOTRACEBACK=single"), c.Env...)
+	cmd.Env = append(append(os.Environ(), workerEnv+"=1", "GOTRACEBACK=all"), c.Env...)
 	// fd 1/2 are plain files opened O_APPEND-like: size tells how much the library wrote
 	cmd.Stdout = c.fd1
 	cmd.Stderr = c.fd2
@@ -199,13 +202,21 @@ func (c *Client) DoRaw(raw []byte, timeout time.Duration) (out []byte, died, hun
 		}
 		return r.b, false, false, "", size(c.fd1) - s1, size(c.fd2) - s2
 	case <-timer.C:
+		// ask the runtime for a goroutine dump (tells where it is stuck), then kill
+		_ = c.cmd.Process.Signal(syscall.SIGQUIT)
+		select {
+		case <-resc:
+		case <-time.After(3 * time.Second):
+			_ = c.cmd.Process.Kill()
+			<-resc
+		}
 		_ = c.cmd.Process.Kill()
 		_, _ = c.cmd.Process.Wait()
-		<-resc
+		st := tailOf(c.fd2, s2, 20000)
 		c.reqW.Close()
 		c.respR.Close()
 		c.cmd = nil
-		return nil, false, true, "", size(c.fd1) - s1, size(c.fd2) - s2
+		return nil, false, true, st, size(c.fd1) - s1, size(c.fd2) - s2
 	}
 }
 
@@ -218,6 +229,8 @@ func (c *Client) Do(q Req, timeout time.Duration) Resp {
 		r.Died, r.Stderr = true, stderr
 	} else if hung {
 		r.Hung = true
+		r.Stderr = stderr
+		r.PanicFrame = StuckFrame(stderr)
 	} else if err := json.Unmarshal(out, &r); err != nil {
 		r.Aborted = "bad response: " + err.Error()
 	}
@@ -227,7 +240,36 @@ func (c *Client) Do(q Req, timeout time.Duration) Resp {
 
 // Watchdog is the generous per-call budget: 10 s + 50 us per input byte.
 func Watchdog(n int) time.Duration {
+	if ms, err := strconv.Atoi(os.Getenv("VERIF_WATCHDOG_MS")); err == nil && ms > 0 {
+		return time.Duration(ms) * time.Millisecond // development aid (surveys); the registered commands do not set it
+	}
 	return 10*time.Second + time.Duration(n)*50*time.Microsecond
 }
 
 var _ = runtime.GOMAXPROCS
+
+// StuckFrame extracts the innermost imagemeta frame of the goroutine that was
+// executing the request from a SIGQUIT dump.
+func StuckFrame(dump string) string {
+	lines := strings.Split(dump, "\n")
+	// find the goroutine whose stack contains worker.call; report its first imagemeta frame
+	start := 0
+	for i, ln := range lines {
+		if strings.HasPrefix(ln, "goroutine ") {
+			start = i
+		}
+		if strings.Contains(ln, "internal/worker.call") || strings.Contains(ln, "internal/worker.Exec") {
+			for j := start; j < i; j++ {
+				if strings.HasPrefix(lines[j], "github.com/evanoberholster/imagemeta") {
+					f := strings.TrimPrefix(strings.TrimPrefix(lines[j], "github.com/evanoberholster/imagemeta"), "/")
+					if k := strings.LastIndex(f, "("); k > 0 {
+						f = f[:k]
+					}
+					return f
+				}
+			}
+			return "?"
+		}
+	}
+	return "?"
+}
